@@ -803,6 +803,17 @@ func (repo *Repository) MarkHeaderInvalid(ctx context.Context, hash bitcoin.Hash
 
 	// Check if hash was previously accepted
 	branch, height := repo.branches.Find(hash)
+	if _, known := repo.heights[hash]; known &&
+		(branch == nil || height <= branch.PrunedLowestHeight()) {
+		// The header, or everything below it, has been pruned from memory. Bring the pruned headers
+		// back so the branches can be trimmed. The next clean prunes them again.
+		for _, b := range repo.branches {
+			if err := b.Reload(ctx, repo.store); err != nil {
+				return errors.Wrap(err, "reload")
+			}
+		}
+		branch, height = repo.branches.Find(hash)
+	}
 	if branch == nil {
 		return nil // not found
 	}
